@@ -41,6 +41,10 @@ func stageHostile(r *vf.Run) {
 	r.Logf("failing-sibling rounds: %v", time.Since(t0))
 	r.FlushPartial()
 	t0 = time.Now()
+	failingBatchClients(r)
+	r.Logf("failing-batch-client rounds: %v", time.Since(t0))
+	r.FlushPartial()
+	t0 = time.Now()
 	for k := 0; k < r.N(3, 10); k++ {
 		if frozen := freezeRound(r, k); frozen {
 			break // the DB of this process is dead; nothing more can be learnt here
@@ -215,6 +219,169 @@ func firstErr(es ...error) error {
 		}
 	}
 	return nil
+}
+
+// ---------------------------------------------------------------------------
+// 1b. failing Batch functions of OTHER clients while healthy layers load
+//
+// The later stages of the db store's TOC load (metadata buckets, stream buckets) and
+// initRootNode still go through db.Batch, so they are re-run whenever another client's
+// function in the same coalesced batch fails. Any client can make one fail with an ordinary
+// call sequence: Close() twice, or Close() of a reader and of its Clone (they share the
+// bucket; the memory store's Close is a no-op). Several goroutines keep doing exactly that
+// while healthy layers are opened concurrently; every healthy layer must equal its
+// private-DB walk (tree, attrs, chunk table, bytes).
+func failingBatchClients(r *vf.Run) {
+	const nKinds = 5
+	healthy := make([]*oneCase, nKinds)
+	alone := make([]*Dump, nKinds)
+	probe := prng.Hash64(r.Seed, 4343)
+	for k := range healthy {
+		healthy[k] = healthyCase(r, k)
+		p := filepath.Join(r.Scratch, fmt.Sprintf("fb-alone-%d.db", k))
+		bdb, err := openBolt(p)
+		if err != nil {
+			r.Inconclusive("cannot open bolt file")
+			return
+		}
+		if o := openDB(bdb, healthy[k]); o.err == nil {
+			alone[k] = walk("db-alone", o.r, healthy[k].Blob, r.RNG(7101, uint64(k)), probe, healthy[k].Truth, 0, true)
+			o.r.Close()
+		}
+		bdb.Close()
+		os.Remove(p)
+	}
+	rounds := r.N(20, 100)
+	broken, roundsWithFailures := 0, 0
+	for round := 0; round < rounds; round++ {
+		rng := r.RNG(7103, uint64(round))
+		p := filepath.Join(r.Scratch, fmt.Sprintf("fb-%d.db", round))
+		bdb, err := openBolt(p)
+		if err != nil {
+			r.Inconclusive("cannot open bolt file")
+			return
+		}
+		// the other clients' readers: one already closed, one closed with a live clone
+		var victims []metadata.Reader
+		if o := openDB(bdb, healthy[rng.Intn(nKinds)]); o.err == nil {
+			_, _, _ = o.r.GetChild(o.r.RootID(), "x")
+			_ = o.r.Close()
+			victims = append(victims, o.r) // every further Close is a failing bolt Batch function
+		}
+		if o := openDB(bdb, healthy[rng.Intn(nKinds)]); o.err == nil {
+			if c, err := o.r.Clone(section(healthy[0].Blob)); err == nil {
+				_ = o.r.Close()
+				victims = append(victims, c) // Close of the clone of a closed reader
+			} else {
+				_ = o.r.Close()
+			}
+		}
+		if len(victims) == 0 {
+			bdb.Close()
+			os.Remove(p)
+			continue
+		}
+		const nClosers = 3
+		var failedCloses [nClosers]atomic.Int64
+		stop := make(chan struct{})
+		var cwg sync.WaitGroup
+		for g := 0; g < nClosers; g++ {
+			cwg.Add(1)
+			go func(g int) {
+				defer cwg.Done()
+				for {
+					select {
+					case <-stop:
+						return
+					default:
+					}
+					for _, v := range victims {
+						if err := v.Close(); err != nil {
+							failedCloses[g].Add(1)
+						}
+					}
+				}
+			}(g)
+		}
+		nh := rng.Range(4, 7)
+		type res struct {
+			kind    int
+			openErr error
+			d       *Dump
+		}
+		rs := make([]*res, nh)
+		start := make(chan struct{})
+		var wg sync.WaitGroup
+		for slot := 0; slot < nh; slot++ {
+			x := &res{kind: rng.Intn(nKinds)}
+			rs[slot] = x
+			wrng := r.RNG(7104, uint64(round), uint64(slot))
+			wg.Add(1)
+			go func(x *res) {
+				defer wg.Done()
+				<-start
+				cs := healthy[x.kind]
+				o := openDB(bdb, cs)
+				x.openErr = o.err
+				if o.err != nil {
+					return
+				}
+				x.d = walk("db-with-failing-batch-clients", o.r, cs.Blob, wrng, probe, cs.Truth, 0, true)
+				_ = o.r.Close()
+			}(x)
+		}
+		close(start)
+		wg.Wait()
+		close(stop)
+		cwg.Wait()
+		r.Eval(1)
+		var nfail int64
+		for g := range failedCloses {
+			nfail += failedCloses[g].Load()
+		}
+		r.Count("failing_batch_client:failed_Close_calls_of_other_clients(memory: nil; not judged)", int(nfail))
+		if nfail > 0 {
+			roundsWithFailures++
+			r.NonTrivial(fmt.Sprintf("failing-batch-client:%d", round))
+		}
+		for slot, x := range rs {
+			idx := fmt.Sprintf("failing-batch-client-%d-slot-%d", round, slot)
+			cs := healthy[x.kind]
+			if alone[x.kind] == nil {
+				continue
+			}
+			if x.openErr != nil {
+				broken++
+				r.Violate("sharing:failing-batch-client:healthy-layer-open-fails", "a valid layer cannot be opened while other clients of the same bolt file make failing calls (double Close / Close of a clone): "+x.openErr.Error(), map[string]any{"case": idx, "desc": cs.Desc})
+				continue
+			}
+			countDump(r, x.d)
+			c := compareDumps("sharing", "alone", "shared", alone[x.kind], x.d, cs.Facts)
+			if len(c.out) > 0 || (alone[x.kind].InitErr == "") != (x.d.InitErr == "") {
+				broken++
+				det := map[string]any{"case": idx, "desc": cs.Desc, "init_error_of_the_healthy_layer": x.d.InitErr, "failed_Close_calls_of_other_clients_in_this_round": nfail}
+				var ks []string
+				for _, f := range c.out {
+					ks = append(ks, fmt.Sprintf("%s @%s: %v", f.Key, f.Path, f.Detail["shared"]))
+				}
+				sort.Strings(ks)
+				if len(ks) > 12 {
+					ks = ks[:12]
+				}
+				det["differences_to_the_private_db_walk"] = ks
+				for k, v := range cs.Replay {
+					det[k] = v
+				}
+				r.Violate("sharing:failing-batch-client:healthy-layer-differs", "a valid layer opened while other clients of the same bolt file call Close() on an already closed reader / on the clone of a closed reader (each a failing bolt Batch function) answers differently from the same blob alone in a private bolt file", det)
+				r.Distinct("divergence_keys", "sharing:failing-batch-client:healthy-layer-differs")
+			}
+		}
+		bdb.Close()
+		os.Remove(p)
+	}
+	r.Count("failing_batch_client_rounds", rounds)
+	r.Count("failing_batch_client_rounds_with_failed_calls", roundsWithFailures)
+	r.Count("failing_batch_client_healthy_layers_broken", broken)
 }
 
 // ---------------------------------------------------------------------------
